@@ -528,6 +528,35 @@ Proof.
   split; [right; left; reflexivity|]. split; [reflexivity|]. split; [cbn; lia|]. cbn. intros H. exact H.
 Qed.
 
+(* ------------------------------------------------------------------ inherited descriptors *)
+
+Lemma exec_fds_all_cloexec n parent : Forall (fun f => fd_cloexec f = true) parent ->
+  exec_fds n parent = ([0; 1; 2]%N ++ extra_fds n 3)%list.
+Proof.
+  intros H. unfold exec_fds.
+  assert (E : filter (fun f => (negb (fd_cloexec f) && (3 + N.of_nat n <=? fd_num f)%N)%bool) parent = []).
+  { induction parent as [|f r IH]; [reflexivity|]. inversion H; subst. cbn [filter]. rewrite H2. cbn. apply IH. assumption. }
+  rewrite E. cbn [map]. rewrite app_nil_r. reflexivity.
+Qed.
+
+(* C18_inherits_only_its_socket: whatever the runtime has open (any number of descriptors, any numbers — other plugins'
+   sockets, listeners, files), as long as they carry the close-on-exec flag the way Go and pkg/net open them, and
+   wherever the socket pair sits: the launched process starts with exactly 0, 1, 2 and 3 *)
+Theorem launched_fds_exact others a b : Forall (fun f => fd_cloexec f = true) others ->
+  launched_fds others a b = child_fds.
+Proof.
+  intros H. unfold launched_fds. rewrite exec_fds_all_cloexec; [reflexivity|].
+  apply Forall_app. split; [exact H|]. repeat constructor.
+Qed.
+
+(* the variant whose peer end is left inheritable is refuted: the plugin also gets the peer end at its old number *)
+Theorem inheritable_peer_refuted : exists others a b,
+  Forall (fun f => fd_cloexec f = true) others /\
+  exec_fds 1 (others ++ socketpair_fds true false a b)%list <> child_fds.
+Proof.
+  exists [ {| fd_num := 5; fd_cloexec := true |} ], 7%N, 8%N. split; [repeat constructor|]. cbn. discriminate.
+Qed.
+
 (* ------------------------------------------------------------------ identity = file name, whatever is declared *)
 
 Lemma registered_is_started decl oc ds : registered false decl oc ds = started oc ds.
